@@ -9,6 +9,8 @@ import (
 	"bytes"
 	"fmt"
 	"io"
+	"net"
+	"sync/atomic"
 	"net/http"
 	"os"
 	"path/filepath"
@@ -225,7 +227,43 @@ func runArchiveScenario(seed uint64, size int, t *Trace) error {
 	names := []string{"device+report", "register+device", "rotation", "reports", "device+report+rotation", "register-again"}
 	files := append(append([]string{}, server.PublicFiles...), "server.pubkey")
 	priv := e.S.VerifPrivateKey()
+	// the process is killed inside an append and started again: one of the three logs ends in a proper prefix
+	// of a record (also when it is the very first record of that log). The start drops it, so what is
+	// appended later is aligned and every later archive is made of whole records
+	tornRestart := func() {
+		if e.Stop() != nil {
+			return
+		}
+		var name string
+		var partial []byte
+		switch r.Intn(3) {
+		case 0:
+			name = server.AllDeviceStatsHistoryFile
+			full := server.AllDeviceStats{Devices: make([]server.DeviceStats, 1), TimeslotOffset: 2016 * uint32(r.Intn(3))}.Serialize()
+			partial = full[:1+r.Intn(len(full)-1)]
+		case 1:
+			name = "equipment-authorizations.dat"
+			partial = r.Bytes(1 + r.Intn(147))
+		default:
+			name = "equipment-reports.dat"
+			partial = r.Bytes(1 + r.Intn(79))
+		}
+		if f, err := os.OpenFile(filepath.Join(e.Dir, name), os.O_APPEND|os.O_CREATE|os.O_WRONLY, 0644); err == nil {
+			f.Write(partial)
+			f.Close()
+		}
+		t.Count("archive.torn-restart:" + name)
+		if err := e.Start(); err != nil {
+			t.Line("c14.archive inject=torn-restart:%s => VIOLATION:the server does not start on a log that ends inside a record: %v", name, err)
+		}
+	}
 	for it := 0; it < size; it++ {
+		if r.Chance(15) && e.S != nil {
+			tornRestart()
+			if e.S == nil {
+				break
+			}
+		}
 		// inject a burst before each of 1..3 of the files
 		var where []string
 		for _, f := range files {
@@ -291,9 +329,24 @@ func runArchiveScenario(seed uint64, size int, t *Trace) error {
 	// every request that got past the limiter (any answer but 429), with the caller's before/after times
 	type span struct{ b, a time.Time }
 	var passed []span
+	// every other request comes from a second source address: the limit is the server's, not the caller's
+	second := &http.Client{Timeout: 20 * time.Second, Transport: &http.Transport{DisableKeepAlives: true,
+		DialContext: (&net.Dialer{Timeout: 5 * time.Second, LocalAddr: &net.TCPAddr{IP: net.ParseIP(myIP)}}).DialContext}}
+	var calls int64
 	get := func() int {
 		b := time.Now()
-		st, _, err := e.Get("/api/v1/archive")
+		var st int
+		var err error
+		if atomic.AddInt64(&calls, 1)%2 == 0 {
+			var resp *http.Response
+			if resp, err = second.Get(e.url("/api/v1/archive")); err == nil {
+				io.Copy(io.Discard, resp.Body)
+				resp.Body.Close()
+				st = resp.StatusCode
+			}
+		} else {
+			st, _, err = e.Get("/api/v1/archive")
+		}
 		a := time.Now()
 		mu.Lock()
 		if err == nil && st == 200 {
